@@ -39,7 +39,7 @@ static struct vdev_file vdev_files[VDEV_MAXF];
 static int vdev_nfiles;
 static long vdev_write_calls;		/* counts pwrite64+write over all files */
 static long vdev_fail_at = -1;		/* 1-based index of the write call that fails, -1 = none */
-static int vdev_fail_sticky;		/* if set, every write call >= vdev_fail_at fails */
+static int vdev_fail_sticky;		/* 1: every write call >= vdev_fail_at fails; 2: calls vdev_fail_at and vdev_fail_at+1 fail (a pwrite and its lseek+write fallback) */
 static long vdev_failures;		/* number of injected failures that happened */
 static int vdev_require_align;		/* if non-zero: emulate O_DIRECT: reject unaligned buffer/offset/size with EINVAL */
 
@@ -119,7 +119,7 @@ static ssize_t vdev_pread64(int fd, void *buf, size_t n, off_t off)
 static int vdev_inject(void)
 {
 	vdev_write_calls++;
-	if (vdev_fail_at > 0 && (vdev_write_calls == vdev_fail_at || (vdev_fail_sticky && vdev_write_calls > vdev_fail_at))) {
+	if (vdev_fail_at > 0 && (vdev_write_calls == vdev_fail_at || (vdev_fail_sticky == 1 && vdev_write_calls > vdev_fail_at) || (vdev_fail_sticky == 2 && vdev_write_calls == vdev_fail_at + 1))) {
 		vdev_failures++; errno = EIO; return 1;
 	}
 	return 0;
